@@ -40,6 +40,9 @@ EXC_TYPES = {
     "IndexError": IndexError,
     "StopIteration": StopIteration,
     "RuntimeError": RuntimeError,
+    # BaseException subclasses: a bare `except:` or `except BaseException` in the library would swallow these too
+    "KeyboardInterrupt": KeyboardInterrupt,
+    "GeneratorExit": GeneratorExit,
 }
 
 
